@@ -437,6 +437,21 @@ impl LruDiskCache {
     }
 }
 
+/// Verification hooks (only with `--cfg sccache_verif`): read-only views of the
+/// private bookkeeping, for the external harness.
+#[cfg(sccache_verif)]
+impl LruDiskCache {
+    /// Index entries with their recorded sizes, least recently used first.
+    pub fn verif_index(&self) -> Vec<(OsString, u64)> {
+        self.lru.iter().map(|(k, v)| (k.clone(), *v)).collect()
+    }
+
+    /// Keys and total size of in-flight reservations.
+    pub fn verif_pending(&self) -> (Vec<OsString>, u64) {
+        (self.pending.clone(), self.pending_size)
+    }
+}
+
 #[cfg(test)]
 mod tests {
     use super::fs::{self, File};
